@@ -124,6 +124,13 @@ def oracle_traceback(case, res):
         if op[0] == "eval" and ob["out"][0] == "err" and ob["out"][1] != "deep":
             before = res["obs"][k - 1] if k else {"data": [], "inputs": []}
             sp = Spec(ws[k], data=data_of(before)).top(op[1], op[2])
+            if sp[0] == "err" and sp[1] == "deep":
+                # the unbounded specification diverges, the implementation answered another error: a clean-up
+                # (try/finally) replaced the depth-limit error.  The chain is then a function of the depth limit:
+                # evaluate the specification with the limit of the world
+                sp = Spec(ws[k], data=data_of(before), maxdepth=ws[k]["maxdepth"]).top(op[1], op[2])
+                if sp[0] != "err" or sp[1] != ob["out"][1].split(":")[0]:
+                    continue
             if sp[0] != "err":
                 continue        # reported by the value oracle
             exp = [[c, list(key), ln] for c, key, ln in sp[2]]
